@@ -210,6 +210,43 @@ class Plugin:
     def nontrivial(self, case, obs) -> bool:
         return True
 
+    def widen(self, rng, tier, budget_s=120.0):
+        """The tie or a proof obligation broke and the regular run found no input on which the property itself fails: search wider
+        before reporting 'no-failing-input-found' -- the whole small-scope block (not only the quick tier's sample of it) and fresh
+        generated cases from another seed, for at most budget_s seconds.  Returns (case, obs, model_obs) of a failing input or None."""
+        t0 = time.time()
+        known = [k for k in load_known() if k.get("property") == self.pid and k.get("status") == "known"]
+        matchers = self.known_matchers()
+
+        def failing(batch):
+            obs = observe_all(self, batch)
+            res = run_lines([l for _, _, l in obs])
+            for (c, o, _), r in zip(obs, res):
+                if (o and o[0] == "harness-error") or r in ([-1], [-2]):
+                    continue
+                same, valid, pm, pi, m = classify(r)
+                if valid and pi != 1:
+                    exok = excl_ok(r)
+                    if any(matchers.get(k.get("matcher")) and exok and matchers[k.get("matcher")](c, o) for k in known):
+                        continue
+                    return c, o, m
+            return None
+
+        try:
+            block = self.exhaustive("thorough") if tier == "quick" else []
+        except Exception:
+            block = []
+        rng2 = random.Random(rng.random())
+        stream = itertools.chain(block, self.generate(rng2, 4 * self.counts["quick"]))
+        while time.time() - t0 < budget_s:
+            batch = list(itertools.islice(stream, 1500))
+            if not batch:
+                break
+            hit = failing(batch)
+            if hit:
+                return hit
+        return None
+
     def known_matchers(self):
         return {}
 
@@ -584,8 +621,10 @@ def run_check(plug: Plugin, tier: str, seed: int, level_note=""):
     if rc == 0 and (diff or obl["broken"] or obl["discharged"] < obl["obligations"]):
         # the tie or a proof broke but no failing input yet: widen the search
         extra_bad = None
-        if hasattr(plug, "widen"):
+        try:
             extra_bad = plug.widen(rng, tier)
+        except Exception as e:       # the widened search is best effort
+            log(f"[{pid}] widened search failed: {e!r}")
         if extra_bad:
             c, o, m = extra_bad
             p = write_replay(pid, "fail", {"property": pid, "kind": "property fails on the implementation (found by the widened search)",
